@@ -688,11 +688,21 @@ def probe_tables(repo):
         exc_text = str(e)
     (mi, mm), _ = builtin['managed']
     replies, exc = _call(hp, MK_PATH, mm, mi)
-    if exc is not None or len(replies) != 1 or not _is_err(replies[0]):
-        raise TranslatorError('a failing GetManagedObjects is not answered with one error reply (repair C10-02): %r %r'
+    if exc is None and len(replies) == 1 and _is_err(replies[0]):
+        managed_answered = True
+        errs['managedFailed'] = (replies[0].error_name,
+                                 _pieces_from_text(replies[0].body[0], {'path': MK_PATH, 'excText': exc_text}, 'managed'))
+    elif exc is not None and not replies:
+        # observed behaviour, recorded in the table: the library lets the exception escape and sends nothing
+        # (the code before repair C10-02).  Not the translator's failure - the harness has the failing input.
+        managed_answered = False
+        errs['managedFailed'] = ('', [])
+        ADVISORIES.append('a GetManagedObjects call whose reply cannot be built is NOT answered: %s escapes from '
+                          'handleMethodCallMessage and nothing is sent (recorded as managedFailureAnswered := false)'
+                          % type(exc).__name__)
+    else:
+        raise TranslatorError('a failing GetManagedObjects gave %r / %r: neither one error reply nor an escaping exception'
                               % (replies, exc))
-    errs['managedFailed'] = (replies[0].error_name,
-                             _pieces_from_text(replies[0].body[0], {'path': MK_PATH, 'excText': exc_text}, 'managed'))
 
     # ---- order of checks (each probe makes two checks fire; the reply tells which is first)
     order = []
@@ -762,7 +772,8 @@ def probe_tables(repo):
 
     return {'builtin': builtin, 'errs': errs, 'prefix': prefix, 'notice': notice, 'fallback': fallback,
             'escape': escape, 'enc_handler': handler, 'attr_prefix': P, 'unbound': unbound,
-            'caller_kw': KW, 'caller_min': caller_min, 'order': order, 'reply_rule': reply_rule}
+            'caller_kw': KW, 'caller_min': caller_min, 'order': order, 'reply_rule': reply_rule,
+            'managed_answered': managed_answered}
 
 
 def _norm_pieces(ps):
@@ -837,6 +848,8 @@ def tables(repo):
                                   'by probing the dispatcher' % r)
     if 'errs' in a:
         for r in ('unknownObject', 'managedFailed', 'unknownMethod', 'invalidArgs'):
+            if r == 'managedFailed' and not t['managed_answered']:
+                continue
             same('errs.' + r, (a['errs'][r][0], _norm_pieces(a['errs'][r][1])), (t['errs'][r][0], _norm_pieces(t['errs'][r][1])))
     for r in t['errs']:
         t['errs'][r] = (t['errs'][r][0], _norm_pieces(t['errs'][r][1]))
@@ -905,6 +918,9 @@ def emit(repo):
     o.append('call is not; a failed lookup is answered even when the call is flagged no-reply. -/')
     for k in ('dispatchedExpectingReplyAnswered', 'dispatchedNoReplySilent', 'lookupFailureAnsweredWhenNoReply'):
         o.append('def %s : Bool := %s' % (k, 'true' if t['reply_rule'][k] else 'false'))
+    o.append('/-- A GetManagedObjects call whose reply cannot be built is answered with the `managedFailed` error')
+    o.append('(repair C10-02); `false`: the exception escapes from the dispatcher and nothing is sent. -/')
+    o.append('def managedFailureAnswered : Bool := %s' % ('true' if t['managed_answered'] else 'false'))
     o.append('')
     o.append('end Txdbus.Gen.Dispatch')
     return '\n'.join(o) + '\n'
